@@ -11,7 +11,13 @@
    round 2:  (G) the growth formula of sexp_grow_heap is translated from gc.c (Gen/C10_Consts.v grow_formula);
              closedness with weak objects: harness/embed_c10_weak.c (ephemeron chains in chosen address orders, heap audit
              after every collection), the Scheme workload `weak`, and the DumpChecker (premise / conclusion of
-             coq/C10/Closed.v sweep_inv_closed on the H3 heap dumps); growth stream and policy stream (embed_c10 modes 3, 4)."""
+             coq/C10/Closed.v sweep_inv_closed on the H3 heap dumps); growth stream and policy stream (embed_c10 modes 3, 4).
+   round 3:  the embedder's roots (harness/embed_c10_roots.c bare: sexp_preserve_object / sexp_release_object / gc_preserve frames;
+             the preservatives list = the extracted model's after every operation, the survivors of every collection = the
+             model's closure of the current roots: run_roots / judge_roots); image-loaded heaps (run_image: chibi-scheme -d /
+             -h free -i; the hand-built segment satisfies Inv and equals the model's packed_heap_make, whose arithmetic is
+             translated from gc_heap.c; the whole run is replayed from the image state); closedness through the STRUCT-MEMBER
+             view of sexp.h (gen/c10_layout.py, clang AST) on objects kept alive only from C (run_members_eval)."""
 import bisect, os, re, subprocess, sys, time
 from vlib import build as B
 
@@ -1490,7 +1496,8 @@ def judge_roots(ctx, exe, name, hist, ops, out, replay, agg):
             t = l.split()[1]
             alive = {} if t == "-" else {int(x.split(":")[0]): x.split(":")[1] == "1" for x in t.split(",")}
             reqs.append("roots fixed " + tmpaddr); checks.append(None)
-            reqs.append("roots closure " + graph_text()); checks.append(("closure", k, alive))
+            reqs.append("roots closure " + graph_text())
+            checks.append(("closure", k, alive, {i: owner.get(addr.get(i)) == i for i in alive}))     # who owns each address NOW
             for i, al in alive.items():
                 if not al:
                     if owner.get(addr.get(i)) == i:
@@ -1525,7 +1532,7 @@ def judge_roots(ctx, exe, name, hist, ops, out, replay, agg):
             for i, al in sorted(alive.items()):
                 a = addr.get(i)
                 # identity, not address: when a later object of the history lives at i's address, i itself must be gone
-                want = a in reach and owner.get(a) == i
+                want = a in reach and chk[3].get(i, False)
                 agg["objects_judged"] += 1
                 if al and not want:
                     fail("roots:released-object-not-recycled", k,
